@@ -326,13 +326,21 @@ pub(super) fn find_date_time(
                 let valid_transitions = &additional_transitions[first_valid..];
 
                 let valid_iter = valid_transition_times.iter().copied().zip(valid_transitions.iter().copied());
+                let next_transition_times = valid_transition_times.iter().copied().skip(1).chain(core::iter::once(i64::MAX));
 
-                for (transition_unix_time, &(&local_time_type_before, &local_time_type_after, unix_time_before, unix_time_after)) in valid_iter {
+                for (
+                    (transition_unix_time, &(&local_time_type_before, &local_time_type_after, unix_time_before, unix_time_after)),
+                    next_transition_unix_time,
+                ) in valid_iter.zip(next_transition_times)
+                {
                     if previous_transition_unix_time <= unix_time_before && unix_time_before < transition_unix_time {
                         found_date_time_list.push(FoundDateTimeKind::Normal(new_datetime(local_time_type_before, unix_time_before)));
                     } else {
+                        // A transition coinciding with the previous or the next one delimits an empty period (e.g. all-year DST): the clock does not jump there
+                        let is_jump = previous_transition_unix_time < transition_unix_time && transition_unix_time < next_transition_unix_time;
+
                         // Check for a forward transition
-                        if unix_time_before >= transition_unix_time && unix_time_after < transition_unix_time {
+                        if is_jump && unix_time_before >= transition_unix_time && unix_time_after < transition_unix_time {
                             found_date_time_list.push(FoundDateTimeKind::Skipped {
                                 before_transition: DateTime::from_timespec_and_local(transition_unix_time, nanoseconds, local_time_type_before)?,
                                 after_transition: DateTime::from_timespec_and_local(transition_unix_time, nanoseconds, local_time_type_after)?,
